@@ -1,4 +1,4 @@
-PROPS = ["CTV.Props.C11"]
+PROPS = ["CTV.Props.C11", "CTV.Props.C11Tie", "CTV.Model.DerTieSpec"]
 HARNESS = [dict(pkg="./x509/", test="TestVerifC11", timeout=1200)]
 RULE = ("certificates, CRLs, keys and CSRs from /repo/testdata, /repo/trillian/testdata, x509/testdata (incl. testdata/invalid) and the package's own test vectors, "
         "certificates issued by crypto/x509.CreateCertificate from random templates (key usage, EKU incl. unknown, basic constraints, SAN DNS/email/IP/URI, name constraints of all four kinds, policies, AIA, CRL DP, SKI/AKI, unknown and critical extensions, CT poison; validity on both edges of the UTCTime window 1950/2049 and beyond; NOT generated: SIA, RPKI address/AS blocks, embedded SCT lists, IA5/T61/BMP name strings, ECDSA/PSS signatures), bare certificates (no optional part) and certificates with unique ids, structure-preserving mutations of all of "
